@@ -37,7 +37,7 @@ def generate(seed, tier, k):
     r = S["gen"]
     dim = r.choice([2, 3, 3])
     mixed = r.random() < 0.08
-    fam = r.choice(["linear", "linear", "quadratic", "full", "simplex", "simplex2"]) if not mixed else "linear"
+    fam = r.choice(["linear", "linear", "quadratic", "full", "simplex", "simplex2"]) if not mixed else r.choice(["linear", "simplex2"])
     mesh = gen.gen_mesh(r, dim=dim, allow=(fam,), max_cells=8 if dim == 3 else 12)
     if dim == 2 and mesh["n"][0] * mesh["n"][1] < 9:
         mesh["n"] = [3, 3]
@@ -167,12 +167,18 @@ def independent_operators(doc, w, fixed_points=None):
         M[: M0.shape[0], : M0.shape[1]] += M0
     pres = world.expected_prescribed_from(w, w.boundaries)
     fixed = set(pres.keys())
-    # points without cells are prescribed as well
-    used = np.zeros(w.mesh.npoints, dtype=bool)
-    used[w.mesh.cells.ravel()] = True
-    for p in np.arange(w.mesh.npoints)[~used]:
-        for c in range(d):
-            fixed.add(d * int(p) + c)
+    # points without cells are prescribed as well, per field (the dual fields of a Taylor-Hood
+    # container live on a mesh of the corner points: with an unusual numbering some of its
+    # points carry no cell)
+    off = 0
+    for f in fields:
+        mk = f.region.mesh
+        used = np.zeros(mk.npoints, dtype=bool)
+        used[mk.cells.ravel()] = True
+        for p in np.arange(mk.npoints)[~used]:
+            for c in range(f.dim):
+                fixed.add(off + f.dim * int(p) + c)
+        off += f.values.size
     dof1 = np.array([i for i in range(n) if i not in fixed], dtype=int)
     return K, M, dof1
 
@@ -267,7 +273,15 @@ def run(doc, log):
             with np.errstate(all="ignore"):
                 sv = np.linalg.svd(K11, compute_uv=False)
                 k_singular = bool(sv[-1] <= 1e-10 * sv[0])
-            cls = "singular-stiffness" if k_singular else "regular-stiffness"
+            # rank-deficient mass of the displacement unknowns themselves (linear simplex cells with
+            # the default one-point rule), not merely massless dual unknowns
+            nu_ = w.field.fields[0].values.size
+            du_ = np.flatnonzero(dof1 < nu_)
+            with np.errstate(all="ignore"):
+                Muu = M11[np.ix_(du_, du_)]
+                cu = np.linalg.cond(Muu) if Muu.size else 1.0
+                mass_u_singular = bool(not np.isfinite(cu) or cu > 1e10)
+            cls = "singular-stiffness" if k_singular else ("singular-mass" if mass_u_singular else "regular-stiffness")
             check_pairs(doc, log, rec, vals, vecs, K11, M11, f"FreeVibration.evaluate[{cls}]")
             lam_char = float(np.abs(K11).max()) / max(float(np.abs(M11).max()), 1e-300)
             lam_scale = None
